@@ -577,10 +577,18 @@ def flipQ (n q : Nat) (ψ : List α) : List α :=
   LMat.mulVec (embed n [q] ([[0, 1], [1, 0]] : LMat α)) ψ
 
 def setBit (w c : Nat) (o : Bool) : Nat :=
-  if o then w ||| (1 <<< c) else w - (w &&& (1 <<< c))
+  if o then w ||| (1 <<< c) else w ^^^ (w &&& (1 <<< c))
 
 /-- value of the `sz` bits of `w` starting at `off` -/
 def slice (w off sz : Nat) : Nat := (w >>> off) % 2 ^ sz
+
+/-- a gate application with its parameter VALUES, on one branch (broadcast over whole-register arguments) -/
+def runApp (n : Nat) (rg : Regs) (name : String) (vals : List P) (args : List QArg) (br : Branch α) :
+    Option (List (Branch α)) := do
+  let m ← gateMatrix (α := α) defaultFuel name vals
+  let rs ← args.mapM (resolveArg rg.qregs)
+  let insts ← instances rs
+  pure [(insts.foldl (fun φ qs => LMat.mulVec (embed n qs m) φ) br.1, br.2)]
 
 /-- one quantum operation on one branch; `none` = outside the semantics (ill-formed, or an expression the
 evaluator does not support) -/
@@ -589,10 +597,7 @@ def runOp (n : Nat) (rg : Regs) (nonzero : List α → Bool) (o : Op) (br : Bran
   match o with
   | .app name ps args => do
     let vals ← ps.mapM (eval (P := P) (fun _ => none))
-    let m ← gateMatrix (α := α) defaultFuel name vals
-    let rs ← args.mapM (resolveArg rg.qregs)
-    let insts ← instances rs
-    pure [(insts.foldl (fun φ qs => LMat.mulVec (embed n qs m) φ) ψ, w)]
+    runApp (α := α) n rg name vals args (ψ, w)
   | .measure q c => do
     let (ql, _) ← resolveArg rg.qregs q
     let (cl, _) ← resolveArg rg.cregs c
